@@ -30,6 +30,9 @@ def gen(rng, tier):
         if rng.random() < 0.5:
             ls += ["reopen", "gc", "disk"] + probe
         ls.append("end")
+        if i % 2 == 1 and "ctx=req" not in ls[0]:
+            # request-scoped contexts: every call gets a context that is cancelled as soon as it has returned
+            ls[0] += " ctx=req"
         cases.append("\n".join(ls))
     return cases
 
@@ -46,7 +49,8 @@ def run(rep):
              "transaction), then every open transaction is ended, the pool is drained (counted, not slept for), one collection pass, "
              "and the storage roots are walked: every regular file's length+SHA-256; then GetKeys and Get of every key; in half of "
              "the cases again after Close/Open + collection; compared with the model's content store and the abstract machine's "
-             "committed values; non-trivial = >= 3 writes and a commit/rollback/delete")
+             "committed values; every second history passes request-scoped contexts (cancelled when the call returns), as a gRPC or HTTP "
+             "handler would; non-trivial = >= 3 writes and a commit/rollback/delete")
     # the property itself on the implementation's own observations: files on disk == values Get returns
     bad = 0
     for c, o in zip(cases, st.impl):
